@@ -238,6 +238,12 @@ OPS = {
     "bs_pop":    'if (> (array_length bs) 0) { set bx (array_pop bs) } else {}',
     "bs_rm":     'if (> (array_length bs) 0) { set bs (array_remove_at bs 0) } else {}',
     "bs_slice":  'if (> (array_length bs) 0) { set bs (array_slice bs 0 1) } else {}',
+    # an element of the array itself as the pushed / stored value (the argument points into the storage that may move)
+    "bs_selfpush": 'if (> (array_length bs) 0) { set bs (array_push bs (at bs 0)) } else {}',
+    "bs_fill8":  'while (< (array_length bs) 8) { set bs (array_push bs bx) }',
+    "selfpush":  'if (> (array_length a) 0) { set a (array_push a (at a 0)) } else {}',
+    "n_selfpush": 'if (> (array_length n) 0) { set n (array_push n (at n 0)) } else {}',
+    "i_selfpush": 'if (> (array_length ai) 0) { set ai (array_push ai (at ai 0)) } else {}',
     "bs_renew":  'if (>= c c) { let tb2: Box = (mkbox b "w")\n        set bs []\n        set bs (array_push bs bx)\n        set bs (array_push bs tb2) } else {}',
     "outer":     'set o Outer { b: bx, tag: 2 }',
     "outer_get": 'set bx o.b',
